@@ -349,7 +349,7 @@ def verify_conv_case(job):
 
 
 def _props(case, props):
-    return props + (["C19"] if case.hostile else []) + (["C11"] if case.prior else [])
+    return props + (["C19"] if case.hostile else []) + (["C11", "C09"] if case.prior else [])
 
 
 def _verify(case, tier, seed):
